@@ -43,6 +43,8 @@ def C03(run):
     run.assumptions += ['numbers outside the fixed-point domain n/64, |n|<2^30 (plus the symbolic big integers) are not compared',
                         'AST built directly (no parser) for program-level cases']
     table(run, 'C03')
+    run.rule += TRACE_NOTE.replace('; recorded', '; expressions nested in every statement position: recorded')
+    interptrace(run)
 
 
 def C14(run):
@@ -217,9 +219,16 @@ def C10(run):
     run.rule = ('family DICT (arrays filled through 3-4 distinct non-numeric keys in every order, then joined / printed / compared / named in '
                 'an error) and family ILL: each run is compared with the model and repeated 7 times in one process (fresh hasher state per map) '
                 'and once in a second process; output bytes, outcome and the full error text must be identical')
+    run.rule += ('; text level: the {:#?} dump / parse error and the lint report of every rendering of the block family and of every faulty '
+                 'text are compared across 4 in-process repetitions and a second process')
     run.assumptions += ['hash seeds are sampled (8 runs per program), not enumerated']
     interp(run, 'DICT', family='determ')
     interp(run, 'ILL', family='determ')
+    # parsing and linting: syntax-tree dumps, parse errors and lint reports of rendered programs and of faulty texts
+    grammar(run, 'block', family='dettext')
+    grammar(run, 'fault', family='dettext')
+    if run.tier == 'thorough':
+        grammar(run, 'stmt', family='dettext')
 
 
 def C15(run):
